@@ -35,6 +35,8 @@ def run(tier, seed):
         for t, v in zip(tagged, verdicts):
             v["id"] = t["id"]
         r.add_cases(tagged, verdicts, nontrivial=lambda c: True)
+    for env in (None, {"STEEL_JIT": "false"}):
+        lc.replay_modules(vlib, cases, work, r, "c09.mod" + ("n" if env else ""), env=env, nontriv=lambda c: True)
     r.cov["rule"] = ("tail family of LangFam.tla: 20 loop shapes; the control-stack depth at loop exit after 2 iterations and after "
                      "100000 iterations is compared ((#%verif-depth) hook); the expected answer is computed by the reference machine, "
                      "where the depth is the number of continuation frames (so tail position is decided by the semantics, including two "
